@@ -1585,21 +1585,26 @@ def fortran_block(ctx):
     cached = getattr(ctx, "_c12_fortran", None)
     if cached is not None:
         return cached
-    f = ctx.repo.get_func(FORT, "FortranBackend._emit_auto_jacobian_block")
+    f0 = ctx.repo.get_func(FORT, "FortranBackend._emit_auto_jacobian_block")
+    f = analysis_view(ctx, f0)        # shared emission helpers / entry generators spliced in; reported with f0
     S = Scope(ctx, f)
-    jac = [p for p in f.params if p != f.self_name][0]
+
+    def deref(h):
+        v = S.single_value(h)
+        return v if isinstance(v, ast.BinOp) else h
+    jac = [p for p in f0.params if p != f0.self_name][0]
     exports = symbolic_jacobian_exports(ctx)
     g = cg_func(ctx, "_compute_symbolic_jacobian")
     gstores = entry_stores(ctx, g)
     lines = []
     for c in walk_shallow(f.node):
         if isinstance(c, ast.Call) and call_name(c) == "add_code_line" and c.args:
-            t, holes = template_of(c.args[0])
+            t, holes = string_template(S, c.args[0])
             if t is None:
                 continue
             m = re.match(r"^\s*(dfdu|dfdp)\(⟨(\d+)⟩\s*,\s*⟨(\d+)⟩\)\s*=\s*⟨(\d+)⟩\s*$", t)
             if m:
-                lines.append({"kind": m.group(1), "call": c, "row": holes[int(m.group(2))], "col": holes[int(m.group(3))],
+                lines.append({"kind": m.group(1), "call": c, "row": deref(holes[int(m.group(2))]), "col": deref(holes[int(m.group(3))]),
                               "val": holes[int(m.group(4))], "template": t})
             elif re.search(r"\bdfd[up]\s*\(", t):
                 raise AnalysisError(f"C12: {f.qual}: Jacobian line `{t}` has an unrecognised form")
@@ -1617,7 +1622,7 @@ def fortran_block(ctx):
             return None
         k = dict_key_read(S, base, jac)
         return (k, ib[0].node) if k else None
-    res = {"f": f, "S": S, "jac": jac, "lines": lines, "exports": exports, "gstores": gstores, "exported_key": exported_key}
+    res = {"f": f0, "view": f, "S": S, "jac": jac, "lines": lines, "exports": exports, "gstores": gstores, "exported_key": exported_key}
     ctx._c12_fortran = res
     return res
 
@@ -1628,8 +1633,9 @@ def _r1_fortran(ctx, rid):
     roots = {s.root for s in fb["gstores"]}
     # the dict handed over is the result of _compute_symbolic_jacobian
     gen = ctx.repo.get_func(FORT, "FortranBackend._generate_auto_files")
-    Sg = Scope(ctx, gen)
-    calls = [c for c in walk_shallow(gen.node) if isinstance(c, ast.Call) and call_name(c) == "_emit_auto_jacobian_block"]
+    genv = _inlined(ctx, gen, keep=("_emit_auto_jacobian_block",))     # the call may sit in an extracted emitter of the func wrapper
+    Sg = Scope(ctx, genv)
+    calls = [c for c in walk_shallow(genv.node) if isinstance(c, ast.Call) and call_name(c) == "_emit_auto_jacobian_block"]
     ctx.require(len(calls) == 1 and calls[0].args, f"{rid}: call of _emit_auto_jacobian_block in _generate_auto_files not recognised")
     v = Sg.single_value(calls[0].args[0])
     popped = isinstance(v, ast.Call) and call_name(v) == "pop" and v.args and isinstance(v.args[0], ast.Constant) and v.args[0].value
@@ -1787,8 +1793,9 @@ def text_index_sites(ctx):
     # (3) Fortran y(i) placeholders
     fb = fortran_block(ctx)
     ff, Sf = fb["f"], fb["S"]
+    fview = fb["view"]
     trusted_f = set()
-    for n in walk_shallow(ff.node):
+    for n in walk_shallow(fview.node):
         if isinstance(n, ast.Name) and isinstance(n.ctx, ast.Load):
             k = dict_key_read(Sf, n, fb["jac"]) if any(b.kind == "value" for b in Sf.binds(n)) else None
             if k is not None:
@@ -1803,7 +1810,7 @@ def text_index_sites(ctx):
                 return True
             return super().is_map(e, depth)
     layf = _FL(ctx, Sf)
-    for n, t, h in templates_in(ff.node):
+    for n, t, h in templates_in(fview.node):
         m = re.match(r"^__PYR_Y_⟨(\d+)⟩__$", t or "")
         if m:
             sites.append({"f": ff, "S": Sf, "lay": layf, "node": n, "text": t, "hole": h[int(m.group(1))], "what": "Fortran y(i)",
@@ -1863,6 +1870,160 @@ def _r5_text_indices(ctx, rid):
 # emit_local_array_assign overrides
 # =================================================================================================
 
+class _Rename(ast.NodeTransformer):
+    def __init__(self, mapping):
+        self.mapping = mapping
+
+    def visit_Name(self, n):
+        if n.id in self.mapping:
+            return ast.copy_location(ast.Name(id=self.mapping[n.id], ctx=n.ctx), n)
+        return n
+
+
+def _fold_constant_holes(node: ast.AST) -> None:
+    """f'{'dfdu'}({r})' -> f'dfdu({r})': literal holes (left behind when a helper's parameter received a literal) become text."""
+    for js in [n for n in ast.walk(node) if isinstance(n, ast.JoinedStr)]:
+        vals = []
+        for v in js.values:
+            if isinstance(v, ast.FormattedValue) and isinstance(v.value, ast.Constant) and v.format_spec is None and v.conversion in (-1, 115) \
+                    and isinstance(v.value.value, (str, int)) and not isinstance(v.value.value, bool):
+                v = ast.copy_location(ast.Constant(value=str(v.value.value)), v)
+            if vals and isinstance(v, ast.Constant) and isinstance(vals[-1], ast.Constant):
+                vals[-1] = ast.copy_location(ast.Constant(value=str(vals[-1].value) + str(v.value)), vals[-1])
+            else:
+                vals.append(v)
+        js.values = vals
+
+
+def _splice_local_generators(fnode: ast.AST) -> int:
+    """`for T in G(): BODY` (or `cells = G() ... for T in cells`) where G is a parameterless generator function nested in the same
+    function with exactly one `yield E` statement: replaced by G's statements with `yield E` turned into `T = E; BODY`.  Iterating
+    a generator runs its body interleaved with the consumer's loop body in exactly this order, so the rewrite preserves behaviour;
+    G's locals are renamed apart.  Returns the number of loops rewritten."""
+    gens = {}
+    for st in fnode.body if hasattr(fnode, "body") else []:
+        pass
+    for d in ast.walk(fnode):
+        if isinstance(d, ast.FunctionDef) and d is not fnode:
+            a = d.args
+            if a.args or a.posonlyargs or a.kwonlyargs or a.vararg or a.kwarg:
+                continue
+            ys = [n for n in ast.walk(d) if isinstance(n, (ast.Yield, ast.YieldFrom))]
+            inner_defs = [n for n in ast.walk(d) if isinstance(n, (ast.FunctionDef, ast.Lambda, ast.AsyncFunctionDef)) and n is not d]
+            rets = [n for n in ast.walk(d) if isinstance(n, ast.Return)]
+            if len(ys) != 1 or not isinstance(ys[0], ast.Yield) or ys[0].value is None or inner_defs or rets:
+                continue
+            ystmts = [n for n in ast.walk(d) if isinstance(n, ast.Expr) and n.value is ys[0]]
+            if len(ystmts) != 1:
+                continue
+            if any(isinstance(n, (ast.Global, ast.Nonlocal, ast.Try, ast.With)) for n in ast.walk(d)):
+                continue
+            gens[d.name] = d
+    if not gens:
+        return 0
+    from engine.inline import clone
+    count = [0]
+
+    def gen_call(e):
+        return isinstance(e, ast.Call) and isinstance(e.func, ast.Name) and e.func.id in gens and not e.args and not e.keywords
+
+    def rewrite_block(stmts: list) -> list:
+        out = []
+        for i, st in enumerate(stmts):
+            for fld in ("body", "orelse", "finalbody"):
+                if isinstance(getattr(st, fld, None), list) and not isinstance(st, (ast.FunctionDef, ast.AsyncFunctionDef, ast.ClassDef)):
+                    setattr(st, fld, rewrite_block(getattr(st, fld)))
+            if isinstance(st, ast.Try):
+                for h in st.handlers:
+                    h.body = rewrite_block(h.body)
+            if isinstance(st, ast.For) and not st.orelse:
+                src, drop = None, None
+                if gen_call(st.iter):
+                    src = st.iter
+                elif isinstance(st.iter, ast.Name):
+                    # single assignment `X = G()` in the same block before the loop, X used nowhere else
+                    defs = [x for x in ast.walk(fnode) if isinstance(x, ast.Name) and x.id == st.iter.id]
+                    asg = [x for x in out if isinstance(x, ast.Assign) and len(x.targets) == 1 and isinstance(x.targets[0], ast.Name)
+                           and x.targets[0].id == st.iter.id and gen_call(x.value)]
+                    if len(asg) == 1 and len(defs) == 2:
+                        src, drop = asg[0].value, asg[0]
+                if src is not None and not any(isinstance(x, (ast.Break, ast.Continue, ast.Return, ast.Yield)) for b in st.body for x in ast.walk(b)):
+                    g = gens[src.func.id]
+                    count[0] += 1
+                    body = clone([b for b in g.body if not (isinstance(b, ast.Expr) and isinstance(b.value, ast.Constant))])
+                    stored = {n.id for b in body for n in ast.walk(b) if isinstance(n, ast.Name) and isinstance(n.ctx, ast.Store)}
+                    mapping = {nm: f"{nm}__gen_{count[0]}" for nm in stored}
+                    body = [_Rename(mapping).visit(b) for b in body]
+
+                    def put(block):
+                        res = []
+                        for b in block:
+                            if isinstance(b, ast.Expr) and isinstance(b.value, ast.Yield):
+                                asn = ast.copy_location(ast.Assign(targets=[st.target], value=b.value.value), st)
+                                res.append(asn)
+                                res.extend(st.body)
+                            else:
+                                for fld in ("body", "orelse"):
+                                    if isinstance(getattr(b, fld, None), list):
+                                        setattr(b, fld, put(getattr(b, fld)))
+                                res.append(b)
+                        return res
+                    if drop is not None:
+                        out.remove(drop)
+                    out.extend(put(body))
+                    continue
+            out.append(st)
+        return out
+    fnode.body = rewrite_block(fnode.body)
+    return count[0]
+
+
+def analysis_view(ctx, f):
+    """The function as the rules look at it: private helpers spliced in (engine.inline), local one-yield generators spliced into the
+    loops that consume them, literal f-string holes folded into the text.  A synthetic FunctionInfo (identity semantics) when
+    anything changed, else `f` itself.  Obligations must be reported with the ORIGINAL f."""
+    cache = ctx.__dict__.setdefault("_c12_views", {})
+    if f in cache:
+        return cache[f]
+    fi = _inlined(ctx, f)
+    try:
+        from engine.inline import clone, _mk, InlinedFunction
+        from engine.srcmodel import set_parents
+        node = clone(fi.node)
+        n = _splice_local_generators(node)
+        before = ast.dump(node)
+        _fold_constant_holes(node)
+        if n or ast.dump(node) != before:
+            ast.fix_missing_locations(node)
+            set_parents(node)
+            node._parent = getattr(f.node, "_parent", None)
+            v = _mk(InlinedFunction, f, node)
+            v.origin = f
+            v.inlined_helpers = list(getattr(fi, "inlined_helpers", ()))
+            fi = v
+    except ImportError:
+        pass
+    cache[f] = fi
+    return fi
+
+
+def _inlined(ctx, f, keep=()):
+    """f with its private helpers spliced in (engine.inline); f itself when nothing is to splice or the inliner gives up.
+    `keep`: names of (long-standing) methods the rule wants to keep seeing as calls."""
+    try:
+        from engine.inline import inlined
+    except ImportError:
+        return f
+    cache = ctx.__dict__.setdefault("_c12_inlined", {})
+    key = (f, tuple(sorted(keep)))
+    if key not in cache:
+        try:
+            cache[key] = inlined(ctx, f, keep=tuple(keep))
+        except AnalysisError:
+            cache[key] = f
+    return cache[key]
+
+
 def _r1_emit_hooks(ctx, rid):
     base = ctx.repo.get_class(BASE, "BaseBackend")
     n = 0
@@ -1871,17 +2032,19 @@ def _r1_emit_hooks(ctx, rid):
         if f is None:
             continue
         n += 1
+        f0 = f
+        f = _inlined(ctx, f0)          # private helpers (e.g. an extracted index-joining helper) spliced in; reported with f0
         S = Scope(ctx, f)
-        ps = [p for p in f.params if p != f.self_name]
+        ps = [p for p in f0.params if p != f0.self_name]
         if len(ps) != 3:
             raise AnalysisError(f"{rid}: {f.qual}: signature changed")
         pname, pidx, pexpr = ps
         lines = [c for c in walk_shallow(f.node) if isinstance(c, ast.Call) and call_name(c) == "add_code_line" and c.args]
         if len(lines) != 1:
             raise AnalysisError(f"{rid}: {f.qual}: expected one emitted line")
-        t, holes = template_of(lines[0].args[0])
+        t, holes = string_template(S, lines[0].args[0])
         if t is None:
-            raise AnalysisError(f"{rid}: {f.qual}: emitted line is not an f-string")
+            raise AnalysisError(f"{rid}: {f.qual}: emitted line is not a recognisable string template")
         # render template with role names
         role = {}
         idx_hole = None
@@ -1950,9 +2113,9 @@ def _r1_emit_hooks(ctx, rid):
                                 f"(expected `sep.join(str(i) for i in {pidx})` or an equivalent spelling)")
         facts = {"template": t, "indices": ast.unparse(v)}
         if good:
-            ctx.ok(rid, f, lines[0], f"{cls.name} writes `name[i, j]` with all indices in the order given", facts, label="index rendering")
+            ctx.ok(rid, f0, lines[0], f"{cls.name} writes `name[i, j]` with all indices in the order given", facts, label="index rendering")
         else:
-            ctx.violation(rid, f, lines[0], f"{cls.name}.emit_local_array_assign: {why}: entries of the Jacobian emitted through this "
+            ctx.violation(rid, f0, lines[0], f"{cls.name}.emit_local_array_assign: {why}: entries of the Jacobian emitted through this "
                                             f"backend land at other positions than on the other backends", facts, label="index rendering")
     ctx.require(n >= 2, f"{rid}: expected emit_local_array_assign in BaseBackend and JaxBackend, found {n}")
 
